@@ -38,11 +38,11 @@ VERSIONS = [("MAJOR.MINOR.PATCH", "1.2.3", ["--patch"], ["api v{k}.MAJOR", "docs
             ("{pycalver}", "v202010.1001-beta", [], []),
             ("{semver}", "1.2.3", ["--patch"], [])]
 GENERIC = ['ver{k}="{version}"', "(v{k} {version})", "v{k}: {version};", "rel{k} = '{pep440_version}'", "<x{k}>{version}</x>",
-           "?{k}={pep440_version}&", "{k}% {version} %"]
+           "?{k}={pep440_version}&", "{k}% {version} %", 'v{k} = "{version}"  # managed by bumpver', "{k}: {version} ; note"]
 TRUE_WORDS = ["yes", "true", "1", "on", "True", "YES", "On", "TRUE"]
 FALSE_WORDS = ["no", "false", "0", "off", "False", "nope", "", "2"]
 MESSAGES = ["bump {old_version} -> {new_version}", "release: {new_version}", "chore(release) v{new_version_pep440} [skip ci]",
-            "it's {new_version}", 'say "{new_version}" now', "x = {new_version}; y: 1", "100% {new_version}", "ünï {new_version}"]
+            "it's {new_version}", 'say "{new_version}" now', "x = {new_version}; y: 1", "100% {new_version}", "ünï {new_version}", "release {new_version} (closes #42)", "bump ; then {new_version}"]
 NAMES = ["README.md", "src/pkg/__init__.py", "docs/conf.py", "a b.txt", "Setup.PY", "x-1.txt"]
 
 
